@@ -10,6 +10,8 @@
 -/
 import LDEval.Properties.C07
 import LDEval.Proofs.Refine
+import LDEval.Proofs.AuditOrigin
+import LDEval.Proofs.Prereq
 
 namespace LD.C08
 open LD.C07
@@ -355,6 +357,301 @@ example : variationOrRollout envUser
 
 end Examples
 
+/-! ## Strengthened statements (theorem audit) -/
+
+section Audit
+open LD.AuditC08
+
+/-- The variation-or-rollout that the reason names as the deciding one: the flag's fallthrough for a
+FALLTHROUGH reason, the one of the rule at the reported index for a RULE_MATCH reason, none
+otherwise (off, target match, prerequisite failed, error). -/
+def decidingVR (f : Flag) (r : Reason) : Option VariationOrRollout :=
+  match r.kind with
+  | .fallthrough => some f.fallthrough
+  | .ruleMatch => if 0 ≤ r.ruleIndex then (f.rules[r.ruleIndex.toNat]?).map (·.vr) else none
+  | _ => none
+
+theorem decidingVR_congr (f : Flag) {r r' : Reason} (hk : r'.kind = r.kind)
+    (hi : r'.ruleIndex = r.ruleIndex) : decidingVR f r' = decidingVR f r := by
+  unfold decidingVR; rw [hk, hi]
+
+/-- Spec level: a detail with a known origin is in-experiment exactly when the
+variation-or-rollout its reason names selected its variation with the in-experiment bit. -/
+theorem origin_inExperiment_iff {env : Env} {f : Flag} {d : Detail} (h : Origin env f d) :
+    d.reason.inExperiment = true ↔
+      ∃ vr v, decidingVR f d.reason = some vr ∧
+        variationOrRollout env vr f.key f.salt = .ok (v, true) ∧ d.index = some v := by
+  cases h with
+  | early hk hin =>
+    rw [hin]
+    have : decidingVR f d.reason = none := by
+      unfold decidingVR; rcases hk with hk | hk | hk | hk <;> rw [hk]
+    simp [this]
+  | fallthrough h =>
+    subst h
+    rcases getValueForVR_cases env f f.fallthrough .fallthrough with
+      ⟨k, hd⟩ | ⟨v, e, hvr, -, -, hr, hi, -⟩
+    · rw [hd]; simp [decidingVR, Detail.forError, Reason.error]
+    · rw [hr, hi]
+      cases e
+      · simp [decidingVR, Reason.fallthrough, hvr]
+      · simp [decidingVR, toExperiment_fallthrough, hvr]
+  | rule j r hj h =>
+    subst h
+    rcases getValueForVR_cases env f r.vr (.ruleMatch j r.id) with
+      ⟨k, hd⟩ | ⟨v, e, hvr, -, -, hr, hi, -⟩
+    · rw [hd]; simp [decidingVR, Detail.forError, Reason.error]
+    · rw [hr, hi]
+      cases e
+      · simp [decidingVR, Reason.ruleMatch, hj, hvr]
+      · simp [decidingVR, toExperiment_ruleMatch, hj, hvr]
+
+/-- The reason fields of `evaluate`'s result that do not depend on the big-segments status are
+those of a Spec detail with a known origin (valid contexts). -/
+theorem evaluate_origin (env : Env) (f : Flag) (hc : env.ctx ≠ .invalid) :
+    ∃ d, Origin env f d ∧
+      (evaluate env f).result.detail.value = d.value ∧
+      (evaluate env f).result.detail.index = d.index ∧
+      (evaluate env f).result.detail.reason.kind = d.reason.kind ∧
+      (evaluate env f).result.detail.reason.ruleIndex = d.reason.ruleIndex ∧
+      (evaluate env f).result.detail.reason.ruleId = d.reason.ruleId ∧
+      (evaluate env f).result.detail.reason.inExperiment = d.reason.inExperiment := by
+  obtain ⟨d, ok, hs, ho⟩ := evaluate_spec_origin env f hc
+  obtain ⟨-, hv, hi, hk, hri, hid, -, -, hin⟩ := evaluate_detail_spec env f hc d ok hs
+  exact ⟨d, ho, hv, hi, hk, hri, hid, hin⟩
+
+/-- **In-experiment at the entry point (C08 #27).**  The reason returned by `Evaluator.Evaluate`
+reports in-experiment exactly when the stage its kind names as deciding — the flag's fallthrough for
+FALLTHROUGH, the rule at the reported rule index for RULE_MATCH — is a rollout whose selection for
+this context returned the served variation index with the in-experiment bit set.  In particular it
+never does for off, target-match, prerequisite-failed and error results. -/
+theorem evaluate_inExperiment_iff (env : Env) (f : Flag) :
+    (evaluate env f).result.detail.reason.inExperiment = true ↔
+      ∃ vr v, decidingVR f (evaluate env f).result.detail.reason = some vr ∧
+        variationOrRollout env vr f.key f.salt = .ok (v, true) ∧
+        (evaluate env f).result.detail.index = some v := by
+  by_cases hc : env.ctx = .invalid
+  · rw [(evaluate_invalid f hc).2]
+    simp [decidingVR, Detail.forError, Reason.error]
+  · obtain ⟨d, ho, -, hi, hk, hri, -, hin⟩ := evaluate_origin env f hc
+    rw [hin, hi, decidingVR_congr f hk hri]
+    exact origin_inExperiment_iff ho
+
+/-- **In-experiment, spelled out.**  `Evaluate`'s reason is in-experiment exactly when the deciding
+variation-or-rollout (fallthrough or matched rule) has no fixed variation, its rollout is of kind
+experiment, the context has an individual context of the experiment's context kind, and the bucket
+chosen for the context (by key: `computeBucket` ignores bucket-by for experiments, see
+`experiment_by_key`) is not marked untracked; the served variation is that bucket's. -/
+theorem evaluate_inExperiment_iff_tracked (env : Env) (f : Flag) :
+    (evaluate env f).result.detail.reason.inExperiment = true ↔
+      ∃ vr, decidingVR f (evaluate env f).result.detail.reason = some vr ∧
+        vr.variation = none ∧ vr.rollout.isExperiment = true ∧
+        (∃ sc, env.ctx.byKind vr.rollout.contextKind = some sc) ∧
+        ∃ b fail wv,
+          computeBucket env.opts.secondaryKey env.ctx vr.rollout.isExperiment vr.rollout.seed
+            vr.rollout.contextKind f.key vr.rollout.bucketBy f.salt = .ok (b, fail) ∧
+          Chosen b vr.rollout.variations wv ∧ wv.untracked = false ∧
+          (evaluate env f).result.detail.index = some wv.variation := by
+  rw [evaluate_inExperiment_iff]
+  constructor
+  · rintro ⟨vr, v, hd, hvr, hidx⟩
+    obtain ⟨hv, hexp, hsc, b, fail, hb, wv, -, hwv, hunt, hch⟩ :=
+      (in_experiment_iff env vr f.key f.salt v true hvr).mp rfl
+    exact ⟨vr, hd, hv, hexp, hsc, b, fail, wv, hb, hch, hunt, by rw [hidx, hwv]⟩
+  · rintro ⟨vr, hd, hv, hexp, ⟨sc, hsc⟩, b, fail, wv, hb, hch, hunt, hidx⟩
+    refine ⟨vr, wv.variation, hd, ?_, hidx⟩
+    rw [selection env vr f.key f.salt wv.variation true hv]
+    refine ⟨b, fail, wv, hb, hch, rfl, ?_⟩
+    have h3 : fail ≠ .contextLacksKind := by
+      intro hf
+      rw [(lacks_kind_iff hb).mp hf] at hsc
+      cases hsc
+    simp [hexp, hunt, h3]
+
+/-- In-experiment only ever comes with a FALLTHROUGH or RULE_MATCH reason. -/
+theorem evaluate_inExperiment_kind (env : Env) (f : Flag)
+    (h : (evaluate env f).result.detail.reason.inExperiment = true) :
+    (evaluate env f).result.detail.reason.kind = .fallthrough ∨
+    (evaluate env f).result.detail.reason.kind = .ruleMatch := by
+  by_cases hc : env.ctx = .invalid
+  · rw [(evaluate_invalid f hc).2] at h; cases h
+  · obtain ⟨d, ho, -, -, hk, -, -, hin⟩ := evaluate_origin env f hc
+    rw [hk]; exact ho.inExperiment_kind (hin ▸ h)
+
+/-- A RULE_MATCH reason returned by `Evaluate` names an existing rule of the flag: the index is in
+range and the reported rule id is that rule's id. -/
+theorem evaluate_ruleMatch_rule (env : Env) (f : Flag)
+    (hk : (evaluate env f).result.detail.reason.kind = .ruleMatch) :
+    ∃ rule, 0 ≤ (evaluate env f).result.detail.reason.ruleIndex ∧
+      f.rules[(evaluate env f).result.detail.reason.ruleIndex.toNat]? = some rule ∧
+      (evaluate env f).result.detail.reason.ruleId = rule.id := by
+  by_cases hc : env.ctx = .invalid
+  · rw [(evaluate_invalid f hc).2] at hk; cases hk
+  · obtain ⟨d, ho, -, -, hk', hri, hid, -⟩ := evaluate_origin env f hc
+    obtain ⟨rule, h0, hr, hi, -⟩ := ho.ruleMatch_rule (hk' ▸ hk)
+    exact ⟨rule, hri ▸ h0, hri ▸ hr, hid ▸ hi⟩
+
+/-- **C08 #26, the missing entry-point theorem.**  `Result.IsExperiment` of what `Evaluate` returns is
+false for off, target-match, prerequisite-failed and error results — whatever the flag's
+track-events settings are. -/
+theorem evaluate_not_experiment (env : Env) (f : Flag)
+    (hk : (evaluate env f).result.detail.reason.kind = .off ∨
+          (evaluate env f).result.detail.reason.kind = .targetMatch ∨
+          (evaluate env f).result.detail.reason.kind = .prereqFailed ∨
+          (evaluate env f).result.detail.reason.kind = .error) :
+    (evaluate env f).result.isExperiment = false ∧
+    (evaluate env f).result.detail.reason.inExperiment = false := by
+  have hin : (evaluate env f).result.detail.reason.inExperiment = false := by
+    cases hi : (evaluate env f).result.detail.reason.inExperiment with
+    | false => rfl
+    | true =>
+      rcases evaluate_inExperiment_kind env f hi with h | h <;> rw [h] at hk <;> simp at hk
+  exact ⟨by rw [evaluate_isExperiment]; exact not_experiment_kinds _ _ hin hk, hin⟩
+
+/-- **`Result.IsExperiment` at the entry point.**  It is true exactly when the returned reason is
+in-experiment, or the result is a FALLTHROUGH of a flag with track-events-fallthrough, or a
+RULE_MATCH of a rule with track-events (by `evaluate_ruleMatch_rule` the rule at the reported index
+always exists and is the matched one). -/
+theorem evaluate_isExperiment_iff (env : Env) (f : Flag) :
+    (evaluate env f).result.isExperiment = true ↔
+      (evaluate env f).result.detail.reason.inExperiment = true ∨
+      ((evaluate env f).result.detail.reason.kind = .fallthrough ∧
+        f.trackEventsFallthrough = true) ∨
+      ((evaluate env f).result.detail.reason.kind = .ruleMatch ∧
+        ∃ rule, 0 ≤ (evaluate env f).result.detail.reason.ruleIndex ∧
+          f.rules[(evaluate env f).result.detail.reason.ruleIndex.toNat]? = some rule ∧
+          rule.trackEvents = true) := by
+  rw [evaluate_isExperiment]; exact is_experiment_iff f _
+
+/-- FALLTHROUGH results: `IsExperiment = inExperiment ∨ trackEventsFallthrough`. -/
+theorem evaluate_isExperiment_fallthrough (env : Env) (f : Flag)
+    (hk : (evaluate env f).result.detail.reason.kind = .fallthrough) :
+    (evaluate env f).result.isExperiment =
+      ((evaluate env f).result.detail.reason.inExperiment || f.trackEventsFallthrough) := by
+  rw [evaluate_isExperiment]
+  unfold isExperimentResult
+  rw [hk]
+  cases (evaluate env f).result.detail.reason.inExperiment <;> rfl
+
+/-- RULE_MATCH results: `IsExperiment = inExperiment ∨ rule.trackEvents` for the matched rule. -/
+theorem evaluate_isExperiment_ruleMatch (env : Env) (f : Flag)
+    (hk : (evaluate env f).result.detail.reason.kind = .ruleMatch) :
+    ∃ rule, f.rules[(evaluate env f).result.detail.reason.ruleIndex.toNat]? = some rule ∧
+      (evaluate env f).result.detail.reason.ruleId = rule.id ∧
+      (evaluate env f).result.isExperiment =
+        ((evaluate env f).result.detail.reason.inExperiment || rule.trackEvents) := by
+  obtain ⟨rule, h0, hr, hid⟩ := evaluate_ruleMatch_rule env f hk
+  refine ⟨rule, hr, hid, ?_⟩
+  rw [evaluate_isExperiment]
+  unfold isExperimentResult
+  rw [hk]
+  simp only [ge_iff_le, h0, if_true, hr]
+  cases (evaluate env f).result.detail.reason.inExperiment <;> rfl
+
+/-- All kinds at once: `IsExperiment` as a function of the returned reason and the flag. -/
+theorem evaluate_isExperiment_eq (env : Env) (f : Flag) :
+    (evaluate env f).result.isExperiment =
+      ((evaluate env f).result.detail.reason.inExperiment ||
+        match (evaluate env f).result.detail.reason.kind with
+        | .fallthrough => f.trackEventsFallthrough
+        | .ruleMatch =>
+          ((f.rules[(evaluate env f).result.detail.reason.ruleIndex.toNat]?).map
+            (·.trackEvents)).getD false
+        | _ => false) := by
+  cases hk : (evaluate env f).result.detail.reason.kind with
+  | fallthrough => exact evaluate_isExperiment_fallthrough env f hk
+  | ruleMatch =>
+    obtain ⟨rule, hr, -, h⟩ := evaluate_isExperiment_ruleMatch env f hk
+    rw [h, hr]; rfl
+  | off => obtain ⟨h1, h2⟩ := evaluate_not_experiment env f (.inl hk); rw [h1, h2]; rfl
+  | targetMatch =>
+    obtain ⟨h1, h2⟩ := evaluate_not_experiment env f (.inr (.inl hk)); rw [h1, h2]; rfl
+  | prereqFailed =>
+    obtain ⟨h1, h2⟩ := evaluate_not_experiment env f (.inr (.inr (.inl hk))); rw [h1, h2]; rfl
+  | error =>
+    obtain ⟨h1, h2⟩ := evaluate_not_experiment env f (.inr (.inr (.inr hk))); rw [h1, h2]; rfl
+
+/-! #### `PrerequisiteFlagEvent.PrerequisiteResult.IsExperiment` (C08 #28) -/
+
+/-- **The experiment bit carried by prerequisite events.**  Every event `Evaluate` records is for a
+prerequisite flag `pf` returned by the store; its result detail has one of the three origins with
+respect to `pf`, and its `IsExperiment` is `isExperiment` of `pf` (NOT of the dependent flag) on
+that detail's reason.  Hence the laws of this file hold for events too: in-experiment exactly
+when `pf`'s deciding fallthrough/rule rollout says so, never an experiment for off, target-match,
+prerequisite-failed and error results of `pf`. -/
+theorem event_isExperiment (env : Env) (top : Flag) :
+    ∀ e ∈ (evaluate env top).events, ∃ pf ∈ env.store.flags.map (·.2),
+      e.prereqKey = pf.key ∧ Origin env pf e.result.detail ∧
+      e.result.isExperiment = isExperimentResult pf e.result.detail.reason ∧
+      (e.result.detail.reason.inExperiment = true ↔
+        ∃ vr v, decidingVR pf e.result.detail.reason = some vr ∧
+          variationOrRollout env vr pf.key pf.salt = .ok (v, true) ∧
+          e.result.detail.index = some v) ∧
+      ((e.result.detail.reason.kind = .off ∨ e.result.detail.reason.kind = .targetMatch ∨
+        e.result.detail.reason.kind = .prereqFailed ∨ e.result.detail.reason.kind = .error) →
+        e.result.isExperiment = false) := by
+  intro e he
+  obtain ⟨f, pf, p, d, -, -, hfind, rfl, hs⟩ := evaluate_events_ok env top e he
+  have ho : Origin env pf d := origin_evalFlag _ _ env pf [] d true hs
+  refine ⟨pf, Store.findFlag_mem hfind, rfl, ho, rfl, origin_inExperiment_iff ho, ?_⟩
+  intro hk
+  apply not_experiment_kinds pf d.reason _ hk
+  cases hi : d.reason.inExperiment with
+  | false => rfl
+  | true =>
+    have hk' : d.reason.kind = .off ∨ d.reason.kind = .targetMatch ∨
+        d.reason.kind = .prereqFailed ∨ d.reason.kind = .error := hk
+    rcases ho.inExperiment_kind hi with h | h <;> rw [h] at hk' <;> simp at hk'
+
+/-! Non-vacuity of the entry-point statements: whole evaluations (SHA-1 included) by the kernel. -/
+
+/-- An on flag whose fallthrough is the experiment `expVR`; rule 0 never matches (`in []`), rule 1
+matches every `user` context and tracks events. -/
+def expFlag (salt : String) : Flag :=
+  { key := "f", on := true, salt := salt, variations := [.bool false, .bool true],
+    fallthrough := expVR }
+
+def kindRule : FlagRule :=
+  { id := "r1", trackEvents := true, vr := { variation := some 1 },
+    clauses := [{ attr := Ref.newRef "kind", op := "in", values := [.str "user"] }] }
+
+/-- Fallthrough into a tracked bucket of an experiment: in-experiment and `IsExperiment`. -/
+example : (evaluate envUser (expFlag "salt3")).result.detail.reason.kind = .fallthrough ∧
+    (evaluate envUser (expFlag "salt3")).result.detail.reason.inExperiment = true ∧
+    (evaluate envUser (expFlag "salt3")).result.isExperiment = true := by decide +kernel
+/-- Untracked bucket: neither. -/
+example : (evaluate envUser (expFlag "salt")).result.detail.reason.kind = .fallthrough ∧
+    (evaluate envUser (expFlag "salt")).result.detail.reason.inExperiment = false ∧
+    (evaluate envUser (expFlag "salt")).result.isExperiment = false := by decide +kernel
+/-- Untracked bucket but track-events-fallthrough: `IsExperiment` without in-experiment. -/
+example : (evaluate envUser { expFlag "salt" with trackEventsFallthrough := true }).result.isExperiment
+    = true := by decide +kernel
+/-- A matched rule with track-events (hypothesis of `evaluate_isExperiment_ruleMatch`). -/
+example : (evaluate envUser { expFlag "salt" with rules := [kindRule] }).result.detail.reason.kind
+      = .ruleMatch ∧
+    (evaluate envUser { expFlag "salt" with rules := [kindRule] }).result.isExperiment = true := by
+  decide +kernel
+/-- The hypotheses of `evaluate_not_experiment` are met by a flag that is off although it has
+track-events-fallthrough and an experiment fallthrough … -/
+example : (evaluate envUser { expFlag "salt3" with on := false, trackEventsFallthrough := true
+    }).result.detail.reason.kind = .off := by decide +kernel
+/-- … and by an error result (experiment over an empty rollout) of a flag with
+track-events-fallthrough. -/
+def emptyExpFlag : Flag :=
+  { expFlag "salt3" with trackEventsFallthrough := true, fallthrough := { rollout := { kind := "experiment" } } }
+example : (evaluate envUser emptyExpFlag).result.detail.reason.kind = .error := by decide +kernel
+example : decidingVR (expFlag "s") { kind := .fallthrough } = some expVR := rfl
+
+/-- An event whose prerequisite result is an experiment (`event_isExperiment` is not vacuous): the
+prerequisite `f` is the experiment flag above, the dependent flag has no tracking at all. -/
+example : ((evaluate { envUser with store := { flags := [("f", expFlag "salt3")] } }
+      { key := "t", on := true, prerequisites := [{ key := "f", variation := 0 }],
+        variations := [.bool true], fallthrough := { variation := some 0 } }).events.map
+      (fun e => (e.prereqKey, e.result.isExperiment, e.result.detail.reason.inExperiment))) =
+    [("f", true, true)] := by decide +kernel
+
+end Audit
+
 end LD.C08
 
 #print axioms LD.C08.selection
@@ -372,3 +669,15 @@ end LD.C08
 #print axioms LD.C08.built_reasons_not_in_experiment
 #print axioms LD.C08.not_experiment_built
 #print axioms LD.C08.evaluate_isExperiment
+#print axioms LD.C08.origin_inExperiment_iff
+#print axioms LD.C08.evaluate_origin
+#print axioms LD.C08.evaluate_inExperiment_iff
+#print axioms LD.C08.evaluate_inExperiment_iff_tracked
+#print axioms LD.C08.evaluate_inExperiment_kind
+#print axioms LD.C08.evaluate_ruleMatch_rule
+#print axioms LD.C08.evaluate_not_experiment
+#print axioms LD.C08.evaluate_isExperiment_iff
+#print axioms LD.C08.evaluate_isExperiment_fallthrough
+#print axioms LD.C08.evaluate_isExperiment_ruleMatch
+#print axioms LD.C08.evaluate_isExperiment_eq
+#print axioms LD.C08.event_isExperiment
